@@ -69,9 +69,19 @@ fn parse_header(header: &str) -> Result<Header, ParseError> {
             })
         }
         Some(UNKNOWN) => {
-            while iterator.next_if(|&s| s != NEWLINE).is_some() {}
-
-            Addresses::Unknown
+            // Whatever follows the protocol is ignored up to the line ending, which is
+            // found from the position of the CR and not from the separated parts.
+            return match header
+                .find(CARRIAGE_RETURN)
+                .map(|position| &header[position + 1..])
+            {
+                None | Some("") => Err(ParseError::MissingNewLine),
+                Some(NEWLINE) => Ok(Header {
+                    header: Cow::Borrowed(header),
+                    addresses: Addresses::Unknown,
+                }),
+                Some(_) => Err(ParseError::InvalidSuffix),
+            };
         }
         Some(protocol) if protocol.is_empty() && iterator.peek().is_none() => {
             return Err(ParseError::MissingProtocol)
